@@ -1,6 +1,8 @@
 import CoercionModel.Model.Search
 import CoercionModel.Model.SkeletonsCosmos
 import CoercionModel.Generated.F11
+import CoercionModel.Model.SkeletonsSqlite
+import CoercionModel.Generated.F13
 set_option linter.unusedSimpArgs false
 /-
   C15 — Exists, Search and List answer exactly from stored state and terminate.
@@ -90,6 +92,11 @@ set_option maxRecDepth 100000 in
 /-- CosmosDB backend: the functions that implement this property there still have the shape that was read
     against the model (skeletons regenerated from /repo on every run, Model/SkeletonsCosmos). A static tie
     only: the repository's fake Cosmos client cannot judge this part dynamically. -/
-theorem facts_cosmos_skeleton : Generated.F11.query = SkeletonsCosmos.query := by decide +kernel
+theorem facts_cosmos_skeleton : Generated.F11.query = SkeletonsCosmos.query := by rfl
+
+/-- SQLite backend: the functions and the SQL text that implement this property (query) still have the shape that was
+    read against the model (regenerated from /repo on every run, Model/SkeletonsSqlite). A static tie on top of the
+    dynamic differential: it also sees changes no generated input exercises. -/
+theorem facts_sqlite_skeleton : Generated.F13.query = SkeletonsSqlite.query := by rfl
 
 end Coercion.C15
